@@ -45,7 +45,7 @@ import (
 type c23Req struct {
 	n       int           // statements in the request (1 or 2)
 	wait    bool          // ?wait
-	timeout string        // ?timeout=<d> ("" = service default, 30s)
+	timeout string        // ?timeout=<d> ("" = service default, 30s); menu: 0, 0s, -1s, 100ms, 500ms, 1100ms
 	delay   time.Duration // fake-clock pause of the client before it sends the request
 }
 
@@ -543,6 +543,11 @@ func c23Scenarios(thorough bool) []c23Scenario {
 		{name: "2c-nw1+w1,nw2-cap1-b1-C", clients: [][]c23Req{{nw, w}, {nw2}}, qcap: 1, batch: 1, qto: 100 * ms, script: "C"},
 		// wait time-out equal to the batch time-out: 200 or 408 by select order
 		{name: "2c-w2t=,nw1-b3", clients: [][]c23Req{{{n: 2, wait: true, timeout: "100ms"}}, {nw}}, qcap: 8, batch: 3, qto: 100 * ms, timeDevs: 1},
+		// wait with an explicit non-positive time-out (the three ways ParseDuration accepts one: "0s", the
+		// unit-less "0", a negative value): the wait gives up at once (408) unless the batch was already applied
+		{name: "2c-w1t0s,nw1-b2", clients: [][]c23Req{{{n: 1, wait: true, timeout: "0s"}}, {nw}}, qcap: 8, batch: 2, qto: 100 * ms},
+		{name: "2c-w2t-1s,nw1-b1-N", clients: [][]c23Req{{{n: 2, wait: true, timeout: "-1s"}}, {nw}}, qcap: 8, batch: 1, qto: 100 * ms, script: "N"},
+		{name: "1c-w1t0+nw1-b2", clients: [][]c23Req{{{n: 1, wait: true, timeout: "0"}, nw}}, qcap: 8, batch: 2, qto: 100 * ms},
 		// delayed clients around the timers: at the instant the batch timer fires, during the retry sleep (wait times out before the retry), after the retry
 		{name: "3c-w1,nw2d100,w1t500d300-b2-X", clients: [][]c23Req{{w}, {{n: 2, delay: 100 * ms}}, {{n: 1, wait: true, timeout: "500ms", delay: 300 * ms}}}, qcap: 8, batch: 2, qto: 100 * ms, script: "X"},
 	}
